@@ -11,6 +11,10 @@ logging.disable(logging.CRITICAL)
 
 class EmptyAgg(Exception):          # a legal FALSY exception when raised without sub-errors (`if exc:` is not `if exc is not None:`)
     def __len__(self): return len(self.args)
+import dataclasses as _dc
+@_dc.dataclass(frozen=True)
+class FrozenErr(Exception):          # an exception class that forbids attribute assignment (frozen dataclass): `exc.__cause__ = ...` from Python code raises FrozenInstanceError
+    code: int = 0
 class ModLevel(Exception): pass
 class CustomInit(Exception):
     def __init__(self, a, b=2): super().__init__(a, b); self.a = a
@@ -52,7 +56,7 @@ def alphabet():
     classes = {'ValueError': lambda *a: ValueError(*a), 'ModLevel': lambda *a: ModLevel(*a), 'Nested': lambda *a: Outer.Nested(*a), 'Local': lambda *a: local_cls()(*a), 'Dyn': lambda *a: Dyn(*a),
                'CustomInit': lambda *a: CustomInit(*(a[:2] or (1,))), 'KwOnly': lambda *a: KwOnlyInit(code=a[0] if a else 0), 'MyBase': lambda *a: MyBase(*a), 'KeyError': lambda *a: KeyError(*a),
                'FromResponse': lambda *a: FromResponse(type('Resp', (), {'status': a[0] if a else 0})()),
-               'DataErr': lambda *a: DataErr(a[0] if a and isinstance(a[0], int) and not isinstance(a[0], bool) else 7), 'ValEq': lambda *a: ValEq(*a), 'EmptyAgg': lambda *a: EmptyAgg(*a)}
+               'DataErr': lambda *a: DataErr(a[0] if a and isinstance(a[0], int) and not isinstance(a[0], bool) else 7), 'ValEq': lambda *a: ValEq(*a), 'EmptyAgg': lambda *a: EmptyAgg(*a), 'FrozenErr': lambda *a: FrozenErr(a[0] if a and isinstance(a[0], int) and not isinstance(a[0], bool) else 3)}
     args = {'none': (), 'str': ('boom',), 'mixed': (1, 'x', None, 2.5, True), 'nested': ([1, {'k': [2]}],), 'bytes': (b'\xff\x00',), 'set': ({1, 2},), 'callable': (len,), 'badrepr': (BadRepr(),),
             'unpicklable': (Unpicklable(),), 'unloadable': (Unloadable(),), 'surrogate': ('\ud800',), 'inf': (float('inf'),), 'nan': (float('nan'),), 'intkey': ({1: 2},), 'tuple': ((1, 2),), 'big': (2 ** 80,)}
     return classes, args
@@ -115,9 +119,10 @@ def graphs(seed):
         """spec: list of (class, args, cause_idx|None, context_idx|None, suppress) - indices into the node list (cycles allowed)"""
         nodes = [classes[c](*args[a]) for c, a, *_ in spec]
         for i, (_, _, ci, xi, sup) in enumerate(spec):
-            if ci is not None: nodes[i].__cause__ = nodes[ci]
-            if xi is not None: nodes[i].__context__ = nodes[xi]
-            nodes[i].__suppress_context__ = False if sup == 'keep' else (bool(sup) or ci is not None)          # 'keep': cause AND an un-suppressed context
+            put = BaseException.__setattr__          # what `raise ... from ...` does at C level (a frozen-dataclass exception forbids plain assignment)
+            if ci is not None: put(nodes[i], '__cause__', nodes[ci])
+            if xi is not None: put(nodes[i], '__context__', nodes[xi])
+            put(nodes[i], '__suppress_context__', False if sup == 'keep' else (bool(sup) or ci is not None))          # 'keep': cause AND an un-suppressed context
         return nodes
     specs = []
     for c in classes:
@@ -134,6 +139,10 @@ def graphs(seed):
             specs.append([(c1, a, 1, 2, 'keep'), (c2, 'str', 2, None, False), ('KeyError', 'str', 1, None, False)])        # a 2-cycle reachable over two different paths (cause and un-suppressed context)
             specs.append([(c1, a, 1, 2, 'keep'), (c2, 'str', None, 2, False), ('KeyError', 'str', None, 1, False)])        # the same through context links
             specs.append([(c1, a, 1, 2, False), (c2, 'set', None, 2, False), ('KeyError', 'badrepr', None, None, False)])  # diamond: shared node under cause and context
+    for a in ('str',):          # an exception that forbids attribute assignment as root (with a cause, with a context) and as a link
+        specs.append([('FrozenErr', 'none', 1, None, False), ('ValueError', a, None, None, False)])
+        specs.append([('FrozenErr', 'none', None, 1, False), ('ValueError', a, None, None, False)])
+        specs.append([('ValueError', a, 1, None, False), ('FrozenErr', 'none', None, None, False)])
     for a in ('str', 'set'):          # falsy exceptions as root, cause and context
         specs.append([('ValueError', a, 1, None, False), ('EmptyAgg', 'none', None, None, False)])
         specs.append([('ValueError', a, None, 1, False), ('EmptyAgg', 'none', None, None, False)])
